@@ -67,6 +67,34 @@ CHECKS = {
         COSCHED_NOTE,
         "DESIGN.md section 2.1 and section 4, C03",
     ),
+    "C10": (
+        "cosched",
+        "stateless exhaustive schedule exploration of the real runtime with iterative "
+        "deviation bounding",
+        "Calling context (outside thread, thread payload, coroutine payload of another "
+        "flavour) x target flavour x outcome (None, falsy and fresh objects, Exception "
+        "subclasses) x arguments, and sequences of 2-3 execute calls, next to one sleeping "
+        "bystander per flavour; every schedule within 1 (quick) / 2 (thorough) deviations. "
+        "Oracle: ran exactly once with exactly the arguments in the flavour's context, the "
+        "caller got the identical object / exception, bystanders keep beating and are not "
+        "cancelled, a later shutdown() ends accept() normally.",
+        COSCHED_NOTE,
+        "DESIGN.md section 2.1 and section 4, C10",
+    ),
+    "C11": (
+        "cosched",
+        "stateless exhaustive schedule exploration of the real runtime with iterative "
+        "deviation bounding; overlap detector with a scheduling point inside every section",
+        "For each coroutine flavour every multiset (size 2, thorough also 3) of payload sources "
+        "(queued, adopted from outside / a thread payload / the other coroutine flavour, "
+        "service, executed from outside / a thread / the other flavour) next to blocked thread "
+        "payloads; every payload repeatedly enters a synchronous section holding a scheduling "
+        "point, so two same-flavour payloads on different threads would be interleaved inside "
+        "it by some explored schedule. Oracle: no overlap, one thread / loop / trio token per "
+        "flavour, thread payloads elsewhere, all sections complete while threads block.",
+        COSCHED_NOTE,
+        "DESIGN.md section 2.1 and section 4, C11",
+    ),
     "C17": (
         "smallscope",
         "bounded-exhaustive input enumeration against an independent line-protocol parser",
